@@ -261,6 +261,47 @@ func (s *store) digests() string {
 	return strings.Join(p, ",")
 }
 
+// remoteDigests: the directory for checkpoints transferred from another cluster (rocksdb_backup/remote)
+func (s *store) remoteDigests() string {
+	base := s.db().GetBackupDirForRemote()
+	ents, _ := ioutil.ReadDir(base)
+	var p []string
+	for _, e := range ents {
+		if strings.Contains(e.Name(), "-") {
+			p = append(p, hx.H([]byte(e.Name()))+"="+dirDigest(path.Join(base, e.Name())))
+		}
+	}
+	sort.Strings(p)
+	if len(p) == 0 {
+		return "-"
+	}
+	return strings.Join(p, ",")
+}
+
+// copyCkToRemote: the transfer of ProposeOp_TransferRemoteSnap with a local source: the checkpoint
+// lands in the destination's rocksdb_backup/remote.
+func (s *store) copyCkToRemote(d *store, t, i uint64) string {
+	name := ckName(t, i)
+	src := path.Join(s.db().GetBackupDir(), name)
+	dstBase := d.db().GetBackupDirForRemote()
+	os.MkdirAll(dstBase, common.DIR_PERM)
+	os.RemoveAll(path.Join(dstBase, name))
+	if _, err := os.Stat(src); err != nil {
+		return "nosrc"
+	}
+	if err := common.RunFileSync("", src, dstBase, make(chan struct{})); err != nil {
+		return "err"
+	}
+	return "ok"
+}
+
+func (s *store) restoreRemote(t, i uint64) string {
+	if err := s.db().RestoreFromRemoteBackup(t, i); err != nil {
+		return "err"
+	}
+	return "ok"
+}
+
 // copyCkTo: what prepareSnapshotForStore does for a local source: a stale directory of the same
 // name is cleaned, the checkpoint is copied with common.RunFileSync("", src, dstBackupDir).
 func (s *store) copyCkTo(d *store, t, i uint64) string {
